@@ -504,8 +504,11 @@ class PGPSignature(Armorable, ParentRef, PGPObject):
             _s = subject.hashdata
             _data += b'\x99' + self.int_to_bytes(len(_s), 2) + _s
 
+        # a certification revocation (0x30) that revokes a direct-key signature (0x1F) is computed over the same data
+        # as that signature: the key alone, which has been hashed above
         if self.type in {SignatureType.Generic_Cert, SignatureType.Persona_Cert, SignatureType.Casual_Cert,
-                         SignatureType.Positive_Cert, SignatureType.Attestation, SignatureType.CertRevocation}:
+                         SignatureType.Positive_Cert, SignatureType.Attestation, SignatureType.CertRevocation} \
+                and not (self.type == SignatureType.CertRevocation and isinstance(subject, PGPKey)):
             """
             A certification signature (type 0x10 through 0x13) hashes the User
             ID being bound to the key into the hash context after the above
